@@ -244,3 +244,13 @@ Definition tri_box_okb (t : tri3) (w : Z) (so : stroke_offset) : bool :=
 Definition tri_hyps (t : tri3) (w : Z) (al : alignment) (d : point) : bool :=
   let so := so_of_alignment al in
   tri_nosat (jt_sorted_clockwise t) w so d && tri_box_okb t w so && tri_box_okb (tr_tri d t) w so.
+
+(* pixels() and draw() see the same sequence of lines unless the first next() of the non-fused scanline iterator answered
+   None although a later row has lines (the first two rows of the styled bounding box empty, a later one not) *)
+Definition jt_fused {A} (rs : list (list A)) : bool :=
+  match rs with
+  | [] :: [] :: rest => match jt_go rest with [] => true | _ => false end
+  | _ => true
+  end.
+Definition tri_fused (t : tri3) (w : Z) (al : alignment) (has_fill : bool) : bool :=
+  match jt_rows t w al has_fill with Some rs => jt_fused rs | None => true end.
